@@ -53,7 +53,8 @@ def tran_listener_queries(tier):
     LENV = ["env_alloc.c", "env_misc.c", "env_sync.c", "env_aio.c", "env_msg.c", "env_pipe.c", "env_libc.c"]
     words = ["U(0) C0 N(1) Z", "U(0) CM T C0 N(1)", "U(0) CF T U(1) CM T C0 N(1)", "U(0) CA U(1) C0 N(1)", "U(0) CP T U(1) C0 N(1)", "U(0) C0 C0 N(1) N(1) U(1)",
              "U(0) C0 N(0) U(1) C0 N(1)", "U(0) C0 C0 N(0) N(1)", "U(0) CM Z", "U(0) C0 Z", "U(0) CM T CM T", "U(0) C0 N(1) C0 N(1) U(1) Z", "U(0) Z U(1)",
-             "U(0) CA CA CM T CA", "U(0) CP T CP T C0 N(1) U(1)", "U(0) C0 CM T N(1)"]
+             "U(0) CA CA CM T CA", "U(0) CP T CP T C0 N(1) U(1)", "U(0) C0 CM T N(1)",
+             "U(0) C0 N(2) U(1) C0 N(1)", "U(0) C0 C0 N(2) N(1)", "U(0) C0 N(2) Z"]
     if tier != "quick":
         words += ["U(0) CF T CF T CF T", "U(0) C0 C0 C0 N(1) N(0) N(1) U(1) U(2)", "U(0) CM U(1) T C0 N(1)", "U(0) C0 N(1) U(1) CM T Z", "U(0) CA Z", "U(0) CP Z"]
     for tr, tn in ((0, "tcp"), (2, "ipc")):
